@@ -54,14 +54,13 @@ func genC15(x *Ctx) *c15Scen {
 		c.Nil = tp.Chance(80)
 		sc.Calls = append(sc.Calls, c)
 	}
-	n := tp.G(maxWrites + 1)
-	for i := 0; i < n; i++ {
+	tp.Repeat(0, maxWrites, 650, func(int) {
 		c := c15Call{Kind: "Write", N: tp.G(maxN + 1)}
 		if tp.Chance(100) {
 			c.N = 0
 		}
 		sc.Calls = append(sc.Calls, c)
-	}
+	})
 	sc.Accept = []string{"", "application/json", "application/xml"}[tp.G(3)]
 	sc.Pretty = tp.Bool()
 	sc.Coding = []string{"", "", "gzip", "deflate"}[tp.G(4)]
